@@ -57,6 +57,54 @@ CHECKS.update({
                   "file-level coverage oracle (no non-zero byte outside reported ranges).", ref="DESIGN 5 (C19)",
              note="Trusted: the probe crate (thin calls of the public libfs API), the non-zero-run scanner. Bounds: offsets 0..8/10, <= 3/4 extents."),
 })
+CP_NOTE = ("Trusted: strace/ptrace as the observer (entry and exit of a call are separate events; log order is consistent with program and "
+           "synchronisation order) and as the fault/delay/kill driver; the strace-to-event translator; the kernel. Bounds of the exhaustive part: "
+           "5 operations (2 files of 2 and 1 blocks), W=2 (3 for parfile in thorough), pool queue Q=1 (2), one fault per behaviour. Schedules of "
+           "the real program are perturbed (workers 1..64, seeded delays), not enumerated.")
+CHECKS.update({
+ "C04": dict(tech="TLC on XcpParfile/XcpParblock: all interleavings x every single fault point, invariant ExitZeroComplete (+ non-vacuity with the "
+                  "deviations FinSwallow/LinkIgnored); single-fault campaign on the real binary via strace injection, judged by TLC trace specs "
+                  "(Trace_NS tree, Trace_Meta metadata, Trace_Ev fsync)",
+             text="Model checking of 'exit 0 => complete' over all interleavings and fault points of the design + fault enumeration at every per-thread "
+                  "call index of the real program.", ref="DESIGN 5 (C04)", note=CP_NOTE),
+ "C06": dict(tech="TLC on XcpParfile/XcpParblock (exit status a function of the scenario; MetaAfterLastWrite; directory before child in XcpNS) + "
+                  "repeated perturbed real runs judged by TLC: Trace_Det (all runs agree) and Trace_Ev (metadata after the last write)",
+             text="Exhaustive interleaving exploration of the design; conformance by perturbation (workers 1..64, seeded delays, both drivers).",
+             ref="DESIGN 5 (C06)", note=CP_NOTE),
+ "C07": dict(tech="TLC liveness (Termination, ChannelCloses under weak fairness) + deadlock check on XcpParfile/XcpParblock/XcpData with every single "
+                  "fault; real runs (FIFOs, sockets, empty trees, mid-run failures) under a wall-clock bound; library probe: copy() returns, channel closes",
+             text="Model checking of termination under fairness for all interleavings and fault points; bounded-time conformance runs.",
+             ref="DESIGN 5 (C07)", note=CP_NOTE + " A hang is detected as 'not finished within 25 s (quick) / 90 s (thorough)' where fault-free runs take < 0.5 s."),
+ "C09": dict(tech="TLA+ model XcpBackup (rename/create/write as separate steps, every state a kill point) checked by TLC; TLC-enumerated histories "
+                  "replayed step by step into the real binary (plain, accented, non-UTF-8 names) + SIGKILL campaign; listings judged by Trace_Backup",
+             text="Exhaustive model checking of histories <= 3/4 copies x names x modes x seeds, spec-to-implementation replay of a seeded sample (all in "
+                  "thorough) and kill-point enumeration of an overwrite.", ref="DESIGN 5 (C09)", note=NS_NOTE),
+ "C10": dict(tech="TLC on XcpFinal (finalisation order against the kernel's chown rule) and on the control planes (MetaAfterLastWrite); real copies of "
+                  "hundreds of modes x mtimes x xattrs x owners x flag combinations, per-file records judged by the TLC trace spec Trace_Meta",
+             text="Model checking of the ordering argument + conformance over the attribute space (all 4096 modes in thorough).", ref="DESIGN 5 (C10)",
+             note=CP_NOTE + " Needs root (ownership, arbitrary modes)."),
+ "C12": dict(tech="TLC invariants PrefixOK / ChannelCloses on the control planes and XcpChan (ChannelUpdater batching); update streams recorded through "
+                  "the API probe (client-supplied, channel and no-op updaters; hook clamps; injected faults; bytes transferred from strace) judged by the "
+                  "TLC trace spec Trace_Status",
+             text="Model checking of the stream invariants over all interleavings + trace validation of recorded streams.", ref="DESIGN 5 (C12)",
+             note=CP_NOTE + " The recording updater linearises send() calls under its own mutex; its delay inside send(Size) is sound (DESIGN 5 C12)."),
+ "C15": dict(tech="TLC invariants NeverClones/AlwaysClones/CloneBeforeData/AutoFallsBack on XcpData; strace logs of real runs with the clone answered by "
+                  "the real filesystem, each unsupported errno, hard errors, or emulated success (hooks), judged by the TLC monitor Trace_Ev (+Trace_NS)",
+             text="Model checking + trace validation of system-call order per destination object.", ref="DESIGN 5 (C15)",
+             note=DP_NOTE + " No reflink-capable filesystem here: the success path is an emulated clone."),
+ "C17": dict(tech="git's ignore semantics transcribed to TLA+ (XcpGitignore), sanity laws checked by TLC over all pattern lists of the grammar, "
+                  "cross-checked against `git check-ignore`; each list replayed into xcp, copied set judged by the TLC trace spec Trace_GI",
+             text="Exhaustive (bounded) enumeration of pattern lists with the oracle function evaluated by TLC; spec-to-implementation replay.",
+             ref="DESIGN 5 (C17)", note="Trusted: git 2.39 as the reference for the transcription (re-checked every run); the directory walker. "
+                  "Bounds: <= 2 pattern lines over {a, b, .}, one 20-entry tree."),
+ "C18": dict(tech="TLC invariants SyncAfterWrites / MetaAfterLastWrite on the control planes; strace logs of --fsync runs (multi-block files, workers "
+                  "1..16, 900+ two-block files, seeded delays) judged by the TLC monitor Trace_Ev",
+             text="Model checking over all block-completion orders + trace validation: a successful fsync entered after the exit of the last write.",
+             ref="DESIGN 5 (C18)", note=CP_NOTE + " Durability itself is not observable, only the call and its position."),
+ "C20": dict(tech="TLC invariant OpenBound on both control planes (back-pressure: DispQueue disabled on a full queue); traced runs on trees of N and 4N "
+                  "files with slowed workers under RLIMIT_NOFILE=1024, judged by Trace_Ev (success, peak of open descriptors does not grow)",
+             text="Model checking of the open-handle bound + conformance on large trees.", ref="DESIGN 5 (C20)", note=CP_NOTE),
+})
 hooks_commits = subprocess.run(["git", "-C", "/repo", "log", "--format=%h", "--grep=^verif hooks"], stdout=subprocess.PIPE, text=True).stdout.split()
 m = {"version": 1,
      "setup_cmd": "cd /verif && python3 tools/setup.py",
@@ -77,6 +125,6 @@ for p in props:
                             "engine": "tlc", "level_claimed": {"category": "model_checking", "text": c["text"], "design_ref": c["ref"]},
                             "level_note": c["note"], "technique": c["tech"]})
     else:
-        m["not_applicable"].append({"property_id": i, "reason": "check not built yet (work in progress, see DESIGN.md section 9)"})
+        m["not_applicable"].append({"property_id": i, "reason": "not claimed"})
 json.dump(m, open(os.path.join(V, "MANIFEST.json"), "w"), indent=1)
 print("checks:", len(m["checks"]), "n/a:", len(m["not_applicable"]))
